@@ -147,7 +147,9 @@ impl Multicast {
                     self.sessions[group_id as usize] = Some(session);
                     let mut ans = McGroupSetupAnsCreator::new();
                     ans.mc_group_id_header(group_id);
-                    self.pending_uplinks.extend_from_slice(ans.build()).unwrap();
+                    if !Self::queue_answer(&mut self.pending_uplinks, ans.build()) {
+                        break;
+                    }
                     new_session = Some(Response::GroupSetupTransmitRequest { group_id });
                 }
                 DownlinkRemoteSetup::PackageVersionReq(_) => {
@@ -156,7 +158,9 @@ impl Multicast {
                     let mut ans = PackageVersionAnsCreator::new();
                     ans.package_identifier(MULTICAST_CONTROL_PACKAGE);
                     ans.package_version(MULTICAST_CONTROL_PACKAGE_VERSION);
-                    self.pending_uplinks.extend_from_slice(ans.build()).unwrap();
+                    if !Self::queue_answer(&mut self.pending_uplinks, ans.build()) {
+                        break;
+                    }
                 }
                 DownlinkRemoteSetup::McGroupDeleteReq(req) => {
                     let group_id = req.mc_group_id_header();
@@ -167,7 +171,9 @@ impl Multicast {
                     } else {
                         ans.mc_group_undefined(true);
                     }
-                    self.pending_uplinks.extend_from_slice(ans.build()).unwrap();
+                    if !Self::queue_answer(&mut self.pending_uplinks, ans.build()) {
+                        break;
+                    }
                 }
                 DownlinkRemoteSetup::McGroupStatusReq(r) => {
                     let bm = r.req_group_mask();
@@ -185,7 +191,9 @@ impl Multicast {
                         }
                     }
                     ans.nb_total_groups(nb_total_groups);
-                    self.pending_uplinks.extend_from_slice(ans.build()).unwrap();
+                    if !Self::queue_answer(&mut self.pending_uplinks, ans.build()) {
+                        break;
+                    }
                 }
                 m => {
                     warn!("Unhandled multicast message: {}", m);
@@ -201,6 +209,18 @@ impl Multicast {
         } else {
             Response::NoUpdate
         }
+    }
+
+    /// Queue an answer for the next uplink on the remote setup port. Answers that would not fit
+    /// into a single uplink any more are dropped (returns false): a downlink can carry more
+    /// requests than one uplink has room to answer.
+    fn queue_answer(pending: &mut heapless::Vec<u8, 256>, answer: &[u8]) -> bool {
+        // largest FRMPayload of any data rate
+        const MAX_ANSWERS_LEN: usize = 242;
+        if pending.len() + answer.len() > MAX_ANSWERS_LEN {
+            return false;
+        }
+        pending.extend_from_slice(answer).is_ok()
     }
 
     pub(crate) fn setup_send<const N: usize>(
